@@ -27,7 +27,11 @@ def tau(name, dname):
 def config(rng, name, m, dname, with_pref=None):
     """A random public-constructor configuration of aggregator `name` for matrices with m rows (None if impossible)."""
     with_pref = bool(rng.random() < 0.5) if with_pref is None else with_pref
-    pref = [float(x) for x in np.round(rng.uniform(0.1, 2.0, size=m), 3)] if with_pref else None
+    pref = None
+    if with_pref:
+        # all non-negative preference vectors: dense, with exact zeros (at any position), one-hot, spread over 6 decades
+        from ._agg import pref_vector
+        pref = pref_vector(rng, m, kind=["random", "random", "zeros", "zeros", "onehot", "spread"][int(rng.integers(6))])
     if name in ("UPGrad", "DualProj"):
         return {"name": name, "pref": pref}
     if name in ("AlignedMTL", "ConFIG"):
